@@ -22,12 +22,16 @@ class TableColumn():
         if type(self) != type(other):
             return False
 
-        for k in ['name', 'is_primary_key', 'type', 'default', 'length']:
+        for k in ['name', 'is_primary_key', 'type', 'default', 'length', 'nullable']:
 
             if getattr(self, k) != getattr(other, k):
                 return False
 
         return True
+
+    def __repr__(self):
+        attrs_str = ', '.join([f'{k}={v!r}' for k, v in vars(self).items()])
+        return f'{self.__class__.__name__}({attrs_str})'
 
 
 class CreateTable(ASTNode):
